@@ -1,6 +1,6 @@
 (* C16 — proofs about the interleaving machine, part 3: per-drain accounting outside the
    late-push class, for every schedule, thread count and program. *)
-From Coq Require Import List NArith Bool Arith Lia.
+From Coq Require Import List NArith Bool Arith Lia Permutation.
 Import ListNotations.
 Require Import MV.Common.Interleave MV.C16.Model MV.C16.Conc MV.C16.Spec MV.C16.Proofs MV.C16.ProofsConc2.
 Open Scope N_scope.
@@ -17,29 +17,31 @@ Proof. destruct sd; cbn; auto. Qed.
 (* ---- what one step does to a side *)
 Definition eff (s s' : shared) (l : local) (sd : bool) : Prop :=
   let a := side s sd in let b := side s' sd in
-  b = a
+  (b = a /\ forall idx v c, pcl l <> P3 sd idx v c)
   \/ (sd = usep s /\ (exists v c, pcl l = P1 v c) /\ res b = res a /\ led b = led a /\ fl b = me l :: fl a)
   \/ (exists v c, pcl l = P2 sd v c /\ values (res b) = values (res a) /\ count (res b) = count (res a) + 1 /\
                   led b = led a ++ [v] /\ fl b = fl a)
   \/ (exists idx v c, pcl l = P3 sd idx v c /\ res b = fst (store_step (res a) idx v c) /\ led b = led a /\
                       fl b = without (me l) (fl a))
-  \/ (exists n len acc W, pcl l = K9 sd n len acc W /\ values (res b) = values (res a) /\ count (res b) = 0 /\
+  \/ (exists n len acc W St, pcl l = K9 sd n len acc W St /\ values (res b) = values (res a) /\ count (res b) = 0 /\
                           led b = [] /\ fl b = fl a).
 
 Lemma step_eff s l s' l' : step s l = Some (s', l') -> forall sd, eff s s' l sd.
 Proof.
   intros E sd. unfold step in E. destruct l as [m p td rs]. cbn [pcl me todo results] in *. unfold eff. cbn [pcl me].
-  destruct p; try (inversion E; subst s' l'; left; reflexivity).
-  - inversion E; subst s' l'. rewrite side_set. destruct (Bool.eqb (usep s) sd) eqn:Q; [|left; reflexivity].
+  destruct p; try (inversion E; subst s' l'; left; split; [reflexivity|discriminate]).
+  - inversion E; subst s' l'. rewrite side_set. destruct (Bool.eqb (usep s) sd) eqn:Q; [|left; split; [reflexivity|discriminate]].
     apply Bool.eqb_prop in Q. subst sd. right; left. cbn. repeat split; eauto.
-  - inversion E; subst s' l'. rewrite side_set. destruct (Bool.eqb sd0 sd) eqn:Q; [|left; reflexivity].
+  - inversion E; subst s' l'. rewrite side_set. destruct (Bool.eqb sd0 sd) eqn:Q; [|left; split; [reflexivity|discriminate]].
     apply Bool.eqb_prop in Q. subst sd0. right; right; left. exists v, c. cbn. auto.
   - destruct (store_step (res (side s sd0)) idx v c) as [r' p] eqn:S. inversion E; subst s' l'.
-    rewrite side_set. destruct (Bool.eqb sd0 sd) eqn:Q; [|left; reflexivity].
-    apply Bool.eqb_prop in Q. subst sd0. right; right; right; left. exists idx, v, c. cbn. rewrite S. auto.
-  - destruct (lock s); inversion E; subst s' l'; left; destruct sd; reflexivity.
-  - inversion E; subst s' l'. rewrite side_set. destruct (Bool.eqb sd0 sd) eqn:Q; [|left; reflexivity].
-    apply Bool.eqb_prop in Q. subst sd0. right; right; right; right. exists n, len, acc, W. cbn. auto.
+    rewrite side_set. destruct (Bool.eqb sd0 sd) eqn:Q.
+    + apply Bool.eqb_prop in Q. subst sd0. right; right; right; left. exists idx, v, c. cbn. rewrite S. auto.
+    + left. split; [reflexivity|]. intros i' v' c' H. inversion H; subst. rewrite Bool.eqb_reflx in Q. discriminate.
+  - destruct (lock s); inversion E; subst s' l'; left; (split; [destruct sd; reflexivity|discriminate]).
+  - inversion E; subst s' l'. rewrite side_set. destruct (Bool.eqb sd0 sd) eqn:Q; [|left; split; [reflexivity|discriminate]].
+    apply Bool.eqb_prop in Q. subst sd0. right; right; right; right. exists n, len, acc, W, St. cbn. auto.
+  - discriminate.
 Qed.
 
 Lemma step_late s l s' l' : step s l = Some (s', l') -> late s' = false -> late s = false.
@@ -53,7 +55,7 @@ Proof.
 Qed.
 
 Lemma step_glog s l s' l' : step s l = Some (s', l') ->
-  glog s' = glog s \/ exists d W, pcl l = K10 d W /\ glog s' = (d, W) :: glog s.
+  glog s' = glog s \/ exists d W St, pcl l = K10 d W St /\ glog s' = (d, W, St) :: glog s.
 Proof.
   intros E. unfold step in E. destruct (pcl l);
     try (inversion E; subst s' l'; left; try reflexivity; apply (set_side_misc _ _ _); fail).
@@ -73,11 +75,11 @@ Definition T (cap : nat) (s : shared) (x : local) : Prop :=
   | P2 sd v c => In (me x) (fl (side s sd))
   | P3 sd idx v c => In (me x) (fl (side s sd)) /\ nth_error (led (side s sd)) (N.to_nat idx) = Some v
   | K7 k up => fl (side s up) = []
-  | K8 sd n len take i acc W =>
+  | K8 sd n len take i acc W St =>
       fl (side s sd) = [] /\ W = led (side s sd) /\ n = N.of_nat (length W) /\ len = N.min n (N.of_nat cap) /\
-      take <= len /\ i < take /\ acc = firstn (N.to_nat i) (values (res (side s sd)))
-  | K9 sd n len acc W => fl (side s sd) = [] /\ dg cap n len acc W
-  | K10 d W => dg cap (d_unsampled d) (d_len d) (d_vals d) W
+      take <= len /\ i < take /\ acc = firstn (N.to_nat i) (values (res (side s sd))) /\ Permutation St W
+  | K9 sd n len acc W St => fl (side s sd) = [] /\ dg cap n len acc W /\ Permutation St W
+  | K10 d W St => dg cap (d_unsampled d) (d_len d) (d_vals d) W /\ Permutation St W
   | _ => True
   end.
 
@@ -91,14 +93,14 @@ Proof. intros ->. reflexivity. Qed.
    as use_primary points to the other side *)
 Lemma drain_frame cap s s' l sd :
   usep s = negb sd -> fl (side s sd) = [] -> T cap s l -> eff s s' l sd ->
-  side s' sd = side s sd \/ exists n len acc W, pcl l = K9 sd n len acc W.
+  side s' sd = side s sd \/ exists n len acc W St, pcl l = K9 sd n len acc W St.
 Proof.
-  intros Hu Hf Tl [E|[(E & _)|[(v & c & P & _)|[(idx & v & c & P & _)|(n & len & acc & W & P & _)]]]].
+  intros Hu Hf Tl [[E _]|[(E & _)|[(v & c & P & _)|[(idx & v & c & P & _)|(n & len & acc & W & St & P & _)]]]].
   - left. exact E.
   - exfalso. rewrite Hu in E. destruct sd; discriminate.
   - exfalso. unfold T in Tl. rewrite P in Tl. rewrite Hf in Tl. exact Tl.
   - exfalso. unfold T in Tl. rewrite P in Tl. rewrite Hf in Tl. destruct Tl as [[] _].
-  - right. eauto.
+  - right. exists n, len, acc, W, St. exact P.
 Qed.
 
 Lemma T_other cap s s' ls t l u x :
@@ -112,10 +114,10 @@ Proof.
   { intros A B. pose proof (HL t l Ht A) as LA. pose proof (HL u x Hu B) as LB. rewrite LA in LB. inversion LB. congruence. }
   assert (Hreg : forall sd, drain_side (pcl x) = Some sd -> fl (side s sd) = [] ->
                  side s' sd = side s sd).
-  { intros sd D F. destruct (drain_frame cap s s' l sd (HU u x sd Hu D) F Tl (Heff sd)) as [E|(n & len & acc & W & P)]; [exact E|].
+  { intros sd D F. destruct (drain_frame cap s s' l sd (HU u x sd Hu D) F Tl (Heff sd)) as [E|(n & len & acc & W & St & P)]; [exact E|].
     exfalso. apply Hex; [rewrite P; reflexivity|]. destruct (pcl x); cbn in D; try discriminate; reflexivity. }
   assert (Hmem : forall sd, In (me x) (fl (side s sd)) -> In (me x) (fl (side s' sd))).
-  { intros sd H. destruct (Heff sd) as [E|[(_ & _ & _ & _ & E)|[(v & c & _ & _ & _ & _ & E)|[(idx & v & c & _ & _ & _ & E)|(n & len & acc & W & _ & _ & _ & _ & E)]]]].
+  { intros sd H. destruct (Heff sd) as [[E _]|[(_ & _ & _ & _ & E)|[(v & c & _ & _ & _ & _ & E)|[(idx & v & c & _ & _ & _ & E)|(n & len & acc & W & St & _ & _ & _ & _ & E)]]]].
     - rewrite E. exact H.
     - rewrite E. right. exact H.
     - rewrite E. exact H.
@@ -123,13 +125,237 @@ Proof.
     - rewrite E. exact H. }
   unfold T in *. destruct (pcl x) eqn:Px; auto.
   - destruct Tx as [A B]. split; [apply Hmem; exact A|].
-    destruct (Heff sd) as [E|[(_ & _ & _ & E & _)|[(v0 & c0 & _ & _ & _ & E & _)|[(idx0 & v0 & c0 & _ & _ & E & _)|(n & len & acc & W & P & _ & _ & _ & E)]]]].
+    destruct (Heff sd) as [[E _]|[(_ & _ & _ & E & _)|[(v0 & c0 & _ & _ & _ & E & _)|[(idx0 & v0 & c0 & _ & _ & E & _)|(n & len & acc & W & St & P & _ & _ & _ & E)]]]].
     + rewrite E. exact B.
     + rewrite E. exact B.
     + rewrite E. rewrite nth_error_app1; [exact B|]. apply nth_error_Some. rewrite B. discriminate.
     + rewrite E. exact B.
-    + exfalso. rewrite P in Tl. destruct Tl as [F _]. rewrite <- E, F in A. exact A.
+    + exfalso. rewrite P in Tl. destruct Tl as [F _]. rewrite F in A. exact A.
   - rewrite (Hreg up eq_refl Tx). exact Tx.
   - destruct Tx as [A B]. rewrite (Hreg sd eq_refl A). split; assumption.
   - destruct Tx as [A B]. rewrite (Hreg sd eq_refl A). split; assumption.
 Qed.
+
+(* ---- list lemmas *)
+Lemma nth_set_nth_same (l : list N) : forall i v d, (i < length l)%nat -> nth i (set_nth l i v) d = v.
+Proof. induction l as [|x r IH]; intros [|i] v d H; cbn in *; try lia; auto. apply IH. lia. Qed.
+
+Lemma nth_set_nth_other (l : list N) : forall i j v d, i <> j -> nth j (set_nth l i v) d = nth j l d.
+Proof. induction l as [|x r IH]; intros [|i] [|j] v d H; cbn; auto; try lia. Qed.
+
+Lemma firstn_S_nth (l : list N) : forall i d, (i < length l)%nat -> firstn (S i) l = firstn i l ++ [nth i l d].
+Proof. induction l as [|x r IH]; intros [|i] d H; cbn in *; try lia; auto. f_equal. apply IH. lia. Qed.
+
+Lemma firstn_In_nth (P : N -> Prop) (l : list N) : forall m,
+  (m <= length l)%nat -> (forall j, (j < m)%nat -> P (nth j l 0)) -> forall v, In v (firstn m l) -> P v.
+Proof.
+  induction l as [|x r IH]; intros [|m] Hm H v Hv; cbn in *; try contradiction; try lia.
+  destruct Hv as [<-|Hv]; [apply (H 0%nat); lia|].
+  apply (IH m); [lia| |exact Hv]. intros j Hj. apply (H (S j)). lia.
+Qed.
+
+Lemma firstn_eq_nth (l : list N) : forall m (W : list N),
+  (m <= length l)%nat -> (forall j, (j < m)%nat -> nth_error W j = Some (nth j l 0)) -> firstn m l = firstn m W.
+Proof.
+  induction l as [|x r IH]; intros [|m] W Hm H; cbn in *; try lia; auto.
+  destruct W as [|w W]; [specialize (H 0%nat ltac:(lia)); discriminate|].
+  pose proof (H 0%nat ltac:(lia)) as H0. cbn in H0. inversion H0; subst. cbn. f_equal.
+  apply IH; [lia|]. intros j Hj. apply (H (S j)). lia.
+Qed.
+
+Lemma store_step_cases r idx v c :
+  let r' := fst (store_step r idx v c) in
+  count r' = count r /\
+  ( (idx < capacity r /\ values r' = set_nth (values r) (N.to_nat idx) v)
+    \/ (capacity r <= idx /\ c mod (idx + 1) < capacity r /\ values r' = set_nth (values r) (N.to_nat (c mod (idx + 1))) v)
+    \/ (capacity r <= idx /\ values r' = values r) ).
+Proof.
+  unfold store_step. destruct (idx <? capacity r) eqn:A; [apply N.ltb_lt in A|apply N.ltb_ge in A]; cbn [fst].
+  - split; [reflexivity|]. left. auto.
+  - destruct (c mod (idx + 1) <? capacity r) eqn:B; [apply N.ltb_lt in B|]; (split; [reflexivity|]).
+    + right; left. auto.
+    + right; right. auto.
+Qed.
+
+(* ---- unconditional shape invariants *)
+Definition capS (cap : nat) (s : shared) : Prop := forall sd, length (values (res (side s sd))) = cap.
+Definition cntS (s : shared) : Prop := forall sd, count (res (side s sd)) = N.of_nat (length (led (side s sd))).
+
+Lemma U_step cap s l s' l' : capS cap s -> cntS s -> step s l = Some (s', l') -> capS cap s' /\ cntS s'.
+Proof.
+  intros HC HN E. pose proof (step_eff s l s' l' E) as Heff. split; intros sd; specialize (Heff sd); specialize (HC sd); specialize (HN sd);
+    destruct Heff as [[Q _]|[(_ & _ & Q1 & Q2 & _)|[(v & c & _ & Q1 & Q2 & Q3 & _)|[(idx & v & c & _ & Q1 & Q2 & _)|(n & len & acc & W & St & _ & Q1 & Q2 & Q3 & _)]]]].
+  - rewrite Q. exact HC.
+  - rewrite Q1. exact HC.
+  - rewrite Q1. exact HC.
+  - rewrite Q1. destruct (store_step_cases (res (side s sd)) idx v c) as [_ [(_ & V)|[(_ & _ & V)|(_ & V)]]];
+      rewrite V, ?set_nth_length; exact HC.
+  - rewrite Q1. exact HC.
+  - rewrite Q. exact HN.
+  - rewrite Q1, Q2. exact HN.
+  - rewrite Q2, Q3, HN, app_length. cbn. lia.
+  - rewrite Q1, Q2. destruct (store_step_cases (res (side s sd)) idx v c) as [Cn _]. rewrite Cn. exact HN.
+  - rewrite Q2, Q3. reflexivity.
+Qed.
+
+(* ---- slots against the ledger: every counted slot is either still to be written by a push that
+   has its idx (a thread at 1603), or holds a value of the ledger (the ledger value at that
+   index while no draw has happened yet) *)
+Definition Gs1 (cap : nat) (s : shared) (ls : list local) (sd : bool) : Prop :=
+  forall j, N.of_nat j < count (res (side s sd)) -> (j < cap)%nat ->
+    (exists u x v c, nth_error ls u = Some x /\ pcl x = P3 sd (N.of_nat j) v c)
+    \/ (In (nth j (values (res (side s sd))) 0) (led (side s sd)) /\
+        (count (res (side s sd)) <= N.of_nat cap ->
+         nth_error (led (side s sd)) j = Some (nth j (values (res (side s sd))) 0))).
+Definition Gs (cap : nat) (s : shared) (ls : list local) : Prop := forall sd, Gs1 cap s ls sd.
+
+Lemma wit_keep (ls : list local) t l l' sd j :
+  nth_error ls t = Some l -> (forall v c, pcl l <> P3 sd j v c) ->
+  (exists u x v c, nth_error ls u = Some x /\ pcl x = P3 sd j v c) ->
+  exists u x v c, nth_error (upd ls t l') u = Some x /\ pcl x = P3 sd j v c.
+Proof.
+  intros Ht Hn (u & x & v & c & Hu & P). destruct (Nat.eq_dec u t) as [->|Hne].
+  - rewrite Ht in Hu. inversion Hu; subst. exfalso. apply (Hn v c P).
+  - exists u, x, v, c. split; [|exact P]. rewrite nth_error_upd_other; auto.
+Qed.
+
+Lemma step_P2 s l s' l' sd v c :
+  pcl l = P2 sd v c -> step s l = Some (s', l') -> pcl l' = P3 sd (count (res (side s sd))) v c.
+Proof. intros P E. unfold step in E. rewrite P in E. inversion E. reflexivity. Qed.
+
+Lemma G_step cap s ls t l s' l' :
+  capS cap s -> cntS s -> T cap s l -> Gs cap s ls -> nth_error ls t = Some l ->
+  step s l = Some (s', l') -> Gs cap s' (upd ls t l').
+Proof.
+  intros HC HN Tl HG Ht E sd. pose proof (step_eff _ _ _ _ E sd) as Heff.
+  specialize (HG sd). specialize (HC sd). specialize (HN sd). unfold Gs1 in *.
+  destruct Heff as [[Q NP]|[(_ & (v & c & P) & Q1 & Q2 & _)|[(v & c & P & Q1 & Q2 & Q3 & _)|[(idx & v & c & P & Q1 & Q2 & _)|(n & len & acc & W & St & P & Q1 & Q2 & Q3 & _)]]]];
+    intros j Hj Hc.
+  - rewrite Q in *. destruct (HG j Hj Hc) as [Wt|R]; [left|right; exact R].
+    apply wit_keep with l; auto.
+  - rewrite Q1, Q2 in *. destruct (HG j Hj Hc) as [Wt|R]; [left|right; exact R].
+    apply wit_keep with l; auto. intros; rewrite P; discriminate.
+  - rewrite Q1, Q2, Q3 in *.
+    destruct (N.eq_dec (N.of_nat j) (count (res (side s sd)))) as [Ej|Nj].
+    + left. exists t, l', v, c. split; [eapply nth_error_upd_same; eauto|].
+      rewrite (step_P2 _ _ _ _ _ _ _ P E), Ej. reflexivity.
+    + assert (Hj' : N.of_nat j < count (res (side s sd))) by lia.
+      destruct (HG j Hj' Hc) as [Wt|[R1 R2]]; [left|right].
+      * apply wit_keep with l; auto. intros; rewrite P; discriminate.
+      * split; [apply in_or_app; left; exact R1|]. intros Hle. rewrite nth_error_app1 by lia. apply R2. lia.
+  - rewrite Q2 in *. rewrite Q1 in *. unfold T in Tl. rewrite P in Tl. destruct Tl as [_ Tn].
+    assert (Hidx : idx < count (res (side s sd))).
+    { rewrite HN. assert (N.to_nat idx < length (led (side s sd)))%nat by (apply nth_error_Some; rewrite Tn; discriminate). lia. }
+    pose proof (store_step_cases (res (side s sd)) idx v c) as SC. cbv zeta in SC. destruct SC as [Cn Vs].
+    rewrite Cn in *. unfold capacity in Vs. rewrite HC in Vs.
+    assert (Hwit : forall jj, N.of_nat jj <> idx ->
+                   (exists u x v0 c0, nth_error ls u = Some x /\ pcl x = P3 sd (N.of_nat jj) v0 c0) ->
+                   exists u x v0 c0, nth_error (upd ls t l') u = Some x /\ pcl x = P3 sd (N.of_nat jj) v0 c0).
+    { intros jj Hjj Wt. apply wit_keep with l; auto. intros v0 c0 H. rewrite P in H. inversion H. lia. }
+    destruct Vs as [(A & V)|[(A & B & V)|(A & V)]]; rewrite V.
+    + destruct (Nat.eq_dec j (N.to_nat idx)) as [->|Nj].
+      * right. rewrite nth_set_nth_same by lia. split; [eapply nth_error_In; eauto|]. intros _. exact Tn.
+      * rewrite nth_set_nth_other by lia.
+        destruct (HG j Hj Hc) as [Wt|R]; [left; apply Hwit; [lia|exact Wt]|right; exact R].
+    + destruct (Nat.eq_dec j (N.to_nat (c mod (idx + 1)))) as [->|Nj].
+      * right. rewrite nth_set_nth_same by lia. split; [eapply nth_error_In; eauto|]. intros Hle. lia.
+      * rewrite nth_set_nth_other by lia.
+        destruct (HG j Hj Hc) as [Wt|R]; [left; apply Hwit; [lia|exact Wt]|right; exact R].
+    + destruct (HG j Hj Hc) as [Wt|R]; [left; apply Hwit; [lia|exact Wt]|right; exact R].
+  - rewrite Q2 in Hj. lia.
+Qed.
+
+(* ---- started pushes against the ledger: as multisets, the values started (1601) on a side since
+   its last reset = the ledger of the side + the values of the pushes parked at their fetch_add *)
+Definition p2v (sd : bool) (x : local) : list N :=
+  match pcl x with P2 sd' v _ => if Bool.eqb sd sd' then [v] else [] | _ => [] end.
+Definition cnt (l : list N) (v : N) : nat := count_occ N.eq_dec l v.
+Definition Hs (s : shared) (ls : list local) : Prop :=
+  forall sd v, cnt (stv (side s sd)) v = (cnt (led (side s sd)) v + cnt (flat_map (p2v sd) ls) v)%nat.
+
+Lemma cnt_app l1 l2 v : cnt (l1 ++ l2) v = (cnt l1 v + cnt l2 v)%nat.
+Proof. unfold cnt. apply count_occ_app. Qed.
+
+Lemma fm_upd (f : local -> list N) (ls : list local) t l l' v :
+  nth_error ls t = Some l ->
+  (cnt (flat_map f (upd ls t l')) v + cnt (f l) v = cnt (flat_map f ls) v + cnt (f l') v)%nat.
+Proof.
+  intros H. destruct (upd_split ls t l l' H) as (l1 & l2 & E1 & E2 & _). rewrite E2, E1.
+  rewrite !flat_map_app. cbn [flat_map]. rewrite !cnt_app. lia.
+Qed.
+
+Lemma fm_nil (f : local -> list N) (ls : list local) :
+  (forall u x, nth_error ls u = Some x -> f x = []) -> flat_map f ls = [].
+Proof.
+  induction ls as [|x r IH]; intros H; [reflexivity|]. cbn. rewrite (H 0%nat x eq_refl). cbn.
+  apply IH. intros u y Hy. apply (H (S u)). exact Hy.
+Qed.
+
+Lemma p2v_enter sd m td rs : p2v sd (enter m td rs) = [].
+Proof. unfold p2v. destruct td as [|[v c|k|] r]; reflexivity. Qed.
+
+Lemma step_eff_st s l s' l' : step s l = Some (s', l') -> forall sd,
+  let a := side s sd in let b := side s' sd in
+  (stv b = stv a /\ led b = led a /\ p2v sd l' = p2v sd l)
+  \/ (exists v, stv b = stv a ++ [v] /\ led b = led a /\ p2v sd l = [] /\ p2v sd l' = [v])
+  \/ (exists v, stv b = stv a /\ led b = led a ++ [v] /\ p2v sd l = [v] /\ p2v sd l' = [])
+  \/ (stv b = [] /\ led b = [] /\ p2v sd l = [] /\ p2v sd l' = [] /\
+      exists n len acc W St, pcl l = K9 sd n len acc W St).
+Proof.
+  intros E sd. unfold step in E. destruct l as [m p td rs]. cbn [pcl me todo results] in *. cbv zeta.
+  destruct p.
+  - inversion E; subst s' l'. left. rewrite p2v_enter. auto.
+  - inversion E; subst s' l'. destruct sd, (usep s) eqn:U; cbn;
+      first [left; repeat split; reflexivity | right; left; exists v; repeat split; reflexivity].
+  - inversion E; subst s' l'. destruct sd, sd0; cbn;
+      first [left; repeat split; reflexivity | right; right; left; exists v; repeat split; reflexivity].
+  - destruct (store_step (res (side s sd0)) idx v c) as [r' pr]. inversion E; subst s' l'.
+    left. unfold finish. rewrite p2v_enter. destruct sd, sd0; cbn; auto.
+  - destruct (lock s); inversion E; subst s' l'; left; destruct sd; cbn; auto.
+  - inversion E; subst s' l'. left. auto.
+  - inversion E; subst s' l'. left. destruct sd; cbn; auto.
+  - inversion E; subst s' l'. left. split; [reflexivity|]. split; [reflexivity|].
+    unfold p2v. cbn [goto pcl]. match goal with |- context [if ?b then _ else _] => destruct b end; reflexivity.
+  - inversion E; subst s' l'. left. split; [reflexivity|]. split; [reflexivity|].
+    unfold p2v. cbn [goto pcl]. match goal with |- context [if ?b then _ else _] => destruct b end; reflexivity.
+  - inversion E; subst s' l'. destruct sd, sd0; cbn;
+      first [left; repeat split; reflexivity
+            | right; right; right; repeat split; try reflexivity; exists n, len, acc, W, St; reflexivity].
+  - inversion E; subst s' l'. left. unfold finish. rewrite p2v_enter. destruct sd; cbn; auto.
+  - inversion E; subst s' l'. left. auto.
+  - inversion E; subst s' l'. left. unfold finish. rewrite p2v_enter. auto.
+  - discriminate.
+Qed.
+
+(* nobody is parked at a fetch_add on a side whose in-flight list is empty *)
+Lemma no_p2 cap s (ls : list local) sd :
+  (forall u x, nth_error ls u = Some x -> T cap s x) -> fl (side s sd) = [] -> flat_map (p2v sd) ls = [].
+Proof.
+  intros HT F. apply fm_nil. intros u x Hx. pose proof (HT u x Hx) as Tx. unfold T in Tx. unfold p2v.
+  destruct (pcl x); try reflexivity. destruct (Bool.eqb sd sd0) eqn:Q; [|reflexivity].
+  apply Bool.eqb_prop in Q. subst sd0. rewrite F in Tx. destruct Tx.
+Qed.
+
+Lemma Hs_step cap s ls t l s' l' :
+  (forall u x, nth_error ls u = Some x -> T cap s x) -> Hs s ls -> nth_error ls t = Some l ->
+  step s l = Some (s', l') -> Hs s' (upd ls t l').
+Proof.
+  intros HT H Ht E sd v. pose proof (fm_upd (p2v sd) ls t l l' v Ht) as U. specialize (H sd v).
+  destruct (step_eff_st s l s' l' E sd) as [(A & B & C)|[(w & A & B & C & D)|[(w & A & B & C & D)|(A & B & C & D & n & len & acc & W & St & P)]]].
+  - rewrite A, B. rewrite C in U. lia.
+  - rewrite A, B, cnt_app. rewrite C, D in U. cbn [cnt count_occ] in U. unfold cnt in *. cbn [count_occ] in *. lia.
+  - rewrite A, B, cnt_app. rewrite C, D in U. unfold cnt in *. cbn [count_occ] in *. lia.
+  - rewrite A, B. rewrite C, D in U.
+    assert (F : fl (side s sd) = []).
+    { pose proof (HT t l Ht) as Tl. unfold T in Tl. rewrite P in Tl. apply Tl. }
+    rewrite (no_p2 cap s ls sd HT F) in U. unfold cnt in *. cbn [count_occ] in *. lia.
+Qed.
+
+Lemma perm_at_drain cap s ls sd :
+  (forall u x, nth_error ls u = Some x -> T cap s x) -> Hs s ls -> fl (side s sd) = [] ->
+  Permutation (stv (side s sd)) (led (side s sd)).
+Proof.
+  intros HT H F. apply (Permutation_count_occ N.eq_dec). intros v. specialize (H sd v).
+  rewrite (no_p2 cap s ls sd HT F) in H. unfold cnt in H. cbn [count_occ] in H. lia.
+Qed.
+
